@@ -605,6 +605,69 @@ Proof.
     rewrite (@func_apply_correct false _ _ _ _ _ Hnm H255); reflexivity.
 Qed.
 
+(* ---------- PtgRefN / PtgAreaN: the reference seen from the base cell ---------- *)
+Lemma col_field_mod256 : forall c rr cr, col_field c rr cr mod 256 = c mod 256.
+Proof. intros c rr cr. unfold col_field. destruct rr, cr; lia. Qed.
+
+Lemma rel_ref_translate : forall a br bc, wf_cref 65536 a = true ->
+  rel_ref (cr_row a) (cfield a) (br, bc)
+  = (cr_row (translate (Some (br, bc)) a),
+     col_field (cr_col (translate (Some (br, bc)) a)) (cr_row_rel a) (cr_col_rel a)).
+Proof.
+  intros a br bc H. destruct (wf_cref_bounds _ _ H) as (Hr & Hc & _).
+  unfold rel_ref, cfield, translate. cbn [fst snd cr_row cr_col].
+  destruct (col_field_bits (cr_row_rel a) (cr_col_rel a) Hc) as (Hl & H14 & H15).
+  rewrite H14, H15, Hl, col_field_mod256.
+  f_equal.
+  - destruct (cr_row_rel a); [f_equal; lia|reflexivity].
+  - destruct (cr_col_rel a); [|reflexivity]. f_equal.
+    rewrite (N.add_comm bc). rewrite N.add_mod_idemp_l by lia. reflexivity.
+Qed.
+
+Lemma translate_bounds : forall b a, wf_cref 65536 a = true ->
+  cr_row (translate b a) < 65536 /\ cr_col (translate b a) < 16384.
+Proof.
+  intros b a H. destruct (wf_cref_bounds _ _ H) as (Hr & Hc & _).
+  destruct b as [[br bc]|]; cbn [translate cr_row cr_col]; [|split; assumption].
+  split.
+  - destruct (cr_row_rel a); [|assumption]. apply N.mod_lt. lia.
+  - destruct (cr_col_rel a); [|assumption].
+    assert ((bc + cr_col a) mod 256 < 256) by (apply N.mod_lt; lia). lia.
+Qed.
+
+Lemma render_cref_translate : forall b a,
+  render_cref (translate b a)
+  = a1_ref (cr_row (translate b a)) (cr_col (translate b a)) (cr_row_rel a) (cr_col_rel a).
+Proof. intros [[br bc]|] a; reflexivity. Qed.
+
+Lemma xls_step_refn : forall k a base rest st buf,
+  xe_base env = Some base -> wf_cref 65536 a = true ->
+  xls_step show_f64 env (cls_ptg 0x2C 0x4C 0x6C k) (le 2 (cr_row a) ++ le 2 (cfield a) ++ rest) (st, buf)
+  = Ok (rest, (length buf :: st, buf ++ render_cref (translate (xe_base env) a))).
+Proof.
+  intros k a [br bc] rest st buf Hb H. destruct (wf_cref_bounds _ _ H) as (Hr & Hc & Hf).
+  destruct (translate_bounds (Some (br, bc)) a H) as (Tr & Tc).
+  destruct k; cbn [cls_ptg]; unfold xls_step; rewrite Hb; cbn [fst snd le app u16_at skipn obind];
+    rewrite !le2_eq by assumption; rewrite rel_ref_translate by exact H; cbn [fst snd]; pcr;
+    cbn [obind drop]; rewrite render_cref_translate; reflexivity.
+Qed.
+
+Lemma xls_step_arean : forall k a b base rest st buf,
+  xe_base env = Some base -> wf_cref 65536 a = true -> wf_cref 65536 b = true ->
+  xls_step show_f64 env (cls_ptg 0x2D 0x4D 0x6D k)
+    (le 2 (cr_row a) ++ le 2 (cr_row b) ++ le 2 (cfield a) ++ le 2 (cfield b) ++ rest) (st, buf)
+  = Ok (rest, (length buf :: st, buf ++ render_cref (translate (xe_base env) a) ++ [ch_colon]
+                                     ++ render_cref (translate (xe_base env) b))).
+Proof.
+  intros k a b [br bc] rest st buf Hb Ha Hbb.
+  destruct (wf_cref_bounds _ _ Ha) as (Hr & Hc & Hf). destruct (wf_cref_bounds _ _ Hbb) as (Hr' & Hc' & Hf').
+  destruct (translate_bounds (Some (br, bc)) a Ha) as (Tr & Tc).
+  destruct (translate_bounds (Some (br, bc)) b Hbb) as (Tr' & Tc').
+  destruct k; cbn [cls_ptg]; unfold xls_step; rewrite Hb; cbn [fst snd le app u16_at skipn obind];
+    rewrite !le2_eq by assumption; rewrite !rel_ref_translate by assumption; cbn [fst snd]; pcr;
+    cbn [obind]; pcr; cbn [obind drop]; rewrite !render_cref_translate, <- !app_assoc; reflexivity.
+Qed.
+
 End XlsTokens.
 
 (* ------------------------------------------------------------------ induction principle for the nested AST *)
@@ -630,6 +693,8 @@ Hypothesis HSum : forall a, P a -> P (ESum a).
 Hypothesis HAttr : forall e w a, P a -> P (EAttrSkip e w a).
 Hypothesis HPost : forall e w a, P a -> P (EAttrPost e w a).
 Hypothesis HChoose : forall offs a, P a -> P (EAttrChoose offs a).
+Hypothesis HRefN : forall k a, P (ERefN k a).
+Hypothesis HAreaN : forall k a b, P (EAreaN k a b).
 
 Fixpoint expr_ind' (e : expr) : P e :=
   let fix go (l : list expr) : Forall P l :=
@@ -658,6 +723,8 @@ Fixpoint expr_ind' (e : expr) : P e :=
   | EAttrSkip e w a => HAttr e w (expr_ind' a)
   | EAttrPost e w a => HPost e w (expr_ind' a)
   | EAttrChoose offs a => HChoose offs (expr_ind' a)
+  | ERefN k a => HRefN k a
+  | EAreaN k a b => HAreaN k a b
   end.
 End ExprInd.
 
@@ -860,6 +927,18 @@ Proof.
     cbn [app]. rewrite <- !app_assoc. cbn [Nat.add]. rewrite xls_run_S by len_tac.
     rewrite xls_step_attrchoose by assumption. cbn [obind fst snd]. rewrite IHe.
     unfold render_xls. cbn [render]. reflexivity.
+  - (* ERefN: only with a base cell *)
+    apply andb_prop in Hwf. destruct Hwf as [Hbase Ha].
+    destruct (xe_base env) as [base|] eqn:Eb; [|discriminate].
+    unfold encode_xls. cbn [ntok Nat.add encode app]. rewrite <- app_assoc.
+    rewrite xls_run_S by len_tac; rewrite (@xls_step_refn show_f64 env k a base) by assumption.
+    unfold render_xls. cbn [render obind fst snd]. rewrite Eb. reflexivity.
+  - (* EAreaN *)
+    apply andb_prop in Hwf. destruct Hwf as [Hwf Hb]. apply andb_prop in Hwf. destruct Hwf as [Hbase Ha].
+    destruct (xe_base env) as [base|] eqn:Eb; [|discriminate].
+    unfold encode_xls. cbn [ntok Nat.add encode app]. rewrite <- !app_assoc.
+    rewrite xls_run_S by len_tac; rewrite (@xls_step_arean show_f64 env k a b base) by assumption.
+    unfold render_xls. cbn [render obind fst snd]. rewrite Eb. reflexivity.
 Qed.
 
 End XlsMain.
@@ -1264,6 +1343,8 @@ Proof.
     cbn [app]. rewrite <- !app_assoc. cbn [Nat.add]. rewrite xlsb_run_S by len_tac.
     rewrite xlsb_step_attrchoose by assumption. cbn [obind fst snd]. rewrite IHe.
     unfold render_xlsb. cbn [render]. reflexivity.
+  - (* ERefN: not in the xlsb domain *) discriminate.
+  - (* EAreaN *) discriminate.
 Qed.
 
 End XlsbMain.
@@ -1286,20 +1367,20 @@ Proof.
 Qed.
 
 (* ================================================================== CHOOSE, user-defined functions *)
-Lemma render_e_choose : forall show_f64 sh nm k idx offs vals,
-  render show_f64 sh nm (e_choose k idx offs vals)
-  = lit "CHOOSE(" ++ join_comma (render show_f64 sh nm idx :: map (fun vg => render show_f64 sh nm (fst vg)) vals)
+Lemma render_e_choose : forall show_f64 sh nm tr k idx offs vals,
+  render show_f64 sh nm tr (e_choose k idx offs vals)
+  = lit "CHOOSE(" ++ join_comma (render show_f64 sh nm tr idx :: map (fun vg => render show_f64 sh nm tr (fst vg)) vals)
     ++ [ch_rpar].
 Proof.
-  intros show_f64 sh nm k idx offs vals. unfold e_choose. cbn [render]. unfold render_call.
+  intros show_f64 sh nm tr k idx offs vals. unfold e_choose. cbn [render]. unfold render_call.
   change (100 =? 255) with false. cbn iota.
   change (fname 100) with (lit "CHOOSE"). cbn [map].
-  assert (E : map (render show_f64 sh nm)
+  assert (E : map (render show_f64 sh nm tr)
                 match vals with
                 | [] => []
                 | (v, g) :: t0 => EAttrPost 8 g (EAttrChoose offs v)
                                   :: map (fun vg => EAttrPost 8 (snd vg) (fst vg)) t0
-                end = map (fun vg => render show_f64 sh nm (fst vg)) vals).
+                end = map (fun vg => render show_f64 sh nm tr (fst vg)) vals).
   { destruct vals as [|[v g] t0]; [reflexivity|]. cbn [map render fst]. f_equal.
     rewrite map_map. apply map_ext. intros [v' g']. reflexivity. }
   rewrite E. reflexivity.
@@ -1359,7 +1440,7 @@ Definition ex_choose_text (n : nat) : list N :=
   lit "CHOOSE(2" ++ flat_map (fun i => ch_comma :: dec (N.of_nat (10 + i))) (seq 0 n) ++ [ch_rpar].
 
 Example repaired_witnesses :
-  let xenv := {| xe_sheets := []; xe_names := [lit "_xlfn.CONCAT"]; xe_xtis := [] |} in
+  let xenv := {| xe_sheets := []; xe_names := [lit "_xlfn.CONCAT"]; xe_xtis := []; xe_base := None |} in
   let benv := {| be_sheets := []; be_names := [lit "_xlfn.CONCAT"] |} in
   let sf := fun _ : N => @nil N in
   xlsb_parse_formula sf benv [0x23; 1; 0; 0; 0; 0x17; 1; 0; 65; 0; 0x19; 0x40; 0; 1; 0x17; 1; 0; 98; 0; 0x42; 3; 255; 0]
@@ -1387,7 +1468,7 @@ Proof. vm_compute. repeat split. Qed.
 (* K_STR_WIDE (F21, fixed by a3d91ee) and K_STR_QUOTE (fixed by 6ef7f34): their witnesses are now
    instances of the theorems; kept as computed regression examples. *)
 Example former_known_witnesses :
-  let env := {| xe_sheets := []; xe_names := []; xe_xtis := [] |} in
+  let env := {| xe_sheets := []; xe_names := []; xe_xtis := []; xe_base := None |} in
   let benv := {| be_sheets := []; be_names := [] |} in
   xls_parse_formula (fun _ => []) env (frame_xls (encode_xls (EStr true [97; 98]))) = Ok (lit """ab""") /\
   xls_parse_formula (fun _ => []) env (frame_xls (encode_xls (EStr false [97; 34; 98]))) = Ok (lit """a""""b""") /\
@@ -1400,7 +1481,7 @@ Proof. vm_compute. repeat split. Qed.
 (* a formula with every kind of operand, a quoted quote and a wide non-BMP string *)
 Definition ex_env_xls : xls_env :=
   {| xe_sheets := [lit "Sheet1"; lit "Sheet2"]; xe_names := [lit "rate"];
-     xe_xtis := [(0, 1, 1); (0, 65535, 65535)] |}.
+     xe_xtis := [(0, 1, 1); (0, 65535, 65535)]; xe_base := None |}.
 Definition ex_env_xlsb : xlsb_env := {| be_sheets := [lit "Sheet1"; lit "Sheet2"]; be_names := [lit "rate"] |}.
 Definition ex_expr : expr :=
   let a := {| cr_row := 0; cr_col := 0; cr_row_rel := true; cr_col_rel := true |} in
